@@ -813,6 +813,12 @@ func registerTestify(job Job, mock reflect.Value, m *meth, kind int, maxUID int,
 	})})
 }
 
+// a copy without the counters (which other goroutines update atomically)
+func (m *meth) clone() *meth {
+	return &meth{name: m.name, typ: m.typ, caps: m.caps, wide: m.wide, variadic: m.variadic, nonzero: m.nonzero,
+		fixedVar: m.fixedVar, rets: m.rets, kind: m.kind}
+}
+
 // what a call with this uid must return
 func (m *meth) expectRet(uid, j int) int {
 	if m.kind == 2 && m.wide >= 0 {
@@ -861,10 +867,10 @@ func stressTestify(job Job, mk func() any, res *Result, E *errs) {
 			// subject (unfixed: variadic Run with rolled variadics, nil arguments), not a concurrency finding
 			pm := reflect.ValueOf(mk())
 			pe := &errs{}
-			probe := *m
-			registerTestify(job, pm, &probe, m.kind, maxUID, pe, "probe")
+			probe := m.clone()
+			registerTestify(job, pm, probe, m.kind, maxUID, pe, "probe")
 			uid := maxUID - 1
-			rets, perr := callTestify(pm, &probe, uid)
+			rets, perr := callTestify(pm, probe, uid)
 			okp := perr == nil && len(pe.l) == 0 && probe.ran == 1
 			for j, r := range rets {
 				if dec(r) != probe.expectRet(uid, j) {
@@ -921,9 +927,8 @@ func stressTestify(job Job, mk func() any, res *Result, E *errs) {
 				}()
 				for k := 0; k < 20; k++ {
 					m := ms[(k+g)%len(ms)]
-					extra := *m
-					extra.ran = 0
-					registerTestify(job, mock, &extra, 1+k%2, maxUID, E, "late expectation")
+					extra := m.clone()
+					registerTestify(job, mock, extra, 1+k%2, maxUID, E, "late expectation")
 				}
 			}(g)
 		}
